@@ -72,8 +72,16 @@ Print Assumptions C13_run_nonvacuous.
 (* ---- StartHunt is idempotent per MAC (any state, reachable or not) ---- *)
 Theorem C13_start_idempotent : forall c s a,
   hunted s (amac a) = true -> step c s (StartHunt a) = (s, []).
-Proof. intros c s a H. simpl. unfold start_hunt. unfold hunted in H. rewrite H. reflexivity. Qed.
+Proof. exact start_idempotent. Qed.
 Print Assumptions C13_start_idempotent.
+
+(* ... and a StartHunt of a MAC that is not hunted starts exactly one loop for it and sends nothing itself *)
+Theorem C13_start_fresh : forall c s a,
+  hunted s (amac a) = false ->
+  exists s', step c s (StartHunt a) = (s', []) /\ hunted s' (amac a) = true /\
+             loops s' = loops s ++ [mkLoop a PTop] /\ closed s' = closed s.
+Proof. exact start_fresh. Qed.
+Print Assumptions C13_start_fresh.
 
 (* ---- receive path, for EVERY state and EVERY packet ----
    ProcessPacket hands the connection exactly the frame the spec predicates (Spec/ArpSpoof.v, written from
